@@ -579,9 +579,12 @@ fn main() {
                 }
                 let mut r2 = Rng::new(seed ^ 0x1234);
                 for nn in 5..=10usize {
-                    for _ in 0..if thorough { 40 } else { 6 } {
-                        let (_, f) = vmon::gen::any_fam(nn, &mut r2);
-                        exec_lut(ctx, &Ev::new("lut", "Sop", nn).tab(&f));
+                    for _ in 0..if thorough { 12 } else { 1 } {
+                        // every family of structured tables (one-hot words, few minterms, staircases, ...)
+                        for fam in vmon::gen::Fam::ALL {
+                            let f = vmon::gen::gen(fam, nn, &mut r2);
+                            exec_lut(ctx, &Ev::new("lut", "Sop", nn).tab(&f));
+                        }
                     }
                 }
             }
